@@ -197,6 +197,29 @@ pub fn decode_table() -> Vec<DecodeCase> {
             );
         }
     }
+    // store to an absolute address through a temporary: `lui tmp, %hi(A)` / `s{b|h|w} rs2, %lo(A)(tmp)`;
+    // %hi rounds (the store adds a *sign-extended* %lo), so bit 11 of A matters
+    for op in sops {
+        for &rd in &[5u8, 10, 0] {
+            for addr in [
+                0u32, 4, 0x7fc, 0x800, 0x804, 0xffc, 0x1000, 0x17fc, 0x1800, 0x1ffc, 0x10010000, 0x10010804, 0x100107fc,
+                0x7ffff7fc, 0x7ffff800, 0x7ffffffc,
+            ] {
+                let lo = ((addr << 20) as i32) >> 20;
+                let hi = (addr.wrapping_sub(lo as u32) >> 12) as i32;
+                add(
+                    format!("{} {}, {}, t1", op.name(), rn(rd), addr),
+                    vec![Inst::Lui(6, hi), Inst::Store(op, rd, 6, lo)],
+                    "store-abs",
+                );
+                add(
+                    format!("{} {}, {:#x}, t1", op.name(), rn(rd), addr),
+                    vec![Inst::Lui(6, hi), Inst::Store(op, rd, 6, lo)],
+                    "store-abs",
+                );
+            }
+        }
+    }
     // branches and branch pseudo-instructions
     for &a in &REGS {
         for &b in &REGS {
